@@ -1,4 +1,5 @@
 import QmiModel.Lemmas.C06Frame
+import QmiModel.Lemmas.C06Hs
 /-!
 # C06 — peer connections deliver whole messages in order and contain bad peers
 
@@ -411,7 +412,262 @@ theorem unsendable_reply_replaced (env : Env) (m : Msg) (pn : Name) (h : m.kind 
       [.sentErr { kind := .errReply, rid := m.rid, src := m.src, dst := ⟨pn, m.dst.obj⟩, body := .sendFailed }] := by
   simp [sendFailure, h]
 
-/-! ## 7. Non-vacuity: the hypotheses above are met by concrete, non-trivial states -/
+/-! ## 7a. The blocking client-side reader (`receive_handshake`) -/
+
+/-- **the handshake reader is exact for every segmentation**: the peer's stream is `frame p ++ tail`; the
+    socket hands it out in any non-empty pieces, none longer than `receive_handshake` asked for (`Serves` —
+    the byte counts asked for are the model's `hsNeed buf - len buf`, compared with the real calls on every
+    run).  As soon as the pieces cover the first frame the reader has returned, exactly as if `frame p` had
+    come in one piece (`hsDone`: payload `p` handed to `_process_message`, buffer empty), and the pieces it
+    consumed are exactly `frame p` — `tail` is still in the socket for the event-driven reader. -/
+theorem handshake_reader_exact (env : Env) (s : PState) (p tail : Bytes) (chunks : List Bytes) (avail : Bytes)
+    (hsz : p.length ≤ env.maxSize) (h64 : p.length < 2 ^ 64)
+    (hs : Serves [] avail chunks) (heq : avail = frame p ++ tail)
+    (hcover : 9 + p.length ≤ chunks.flatten.length) :
+    recvHs env s [] chunks = hsDone env s p ∧
+    (chunks.take (recvHsReqs env [] chunks).length).flatten = frame p :=
+  recvHs_exact env s p tail chunks avail hsz h64 hs heq hcover
+
+/-- until then it only waits (never an error, never a partial frame processed) -/
+theorem handshake_reader_waits_or_done (env : Env) (s : PState) (p tail : Bytes) (chunks : List Bytes) (avail : Bytes)
+    (hsz : p.length ≤ env.maxSize) (h64 : p.length < 2 ^ 64)
+    (hs : Serves [] avail chunks) (heq : avail = frame p ++ tail) :
+    (recvHs env s [] chunks).err = some .needMore ∨ recvHs env s [] chunks = hsDone env s p := by
+  rcases recvHs_exact_aux env s p tail hsz h64 chunks [] avail hs (by simpa using heq) (by simp) with h | h
+  · exact Or.inl h
+  · exact Or.inr h.1
+
+/-! ## 8. Establishing connections: `connect_to_peer`, `_TcpServer` / `add_incoming_connection` -/
+
+theorem connect_invalid_name_refused (w : World) (id n : Nat) (chunks : List Bytes) :
+    w.connect id (.client n) chunks = (w, [], some .invalidName) := by
+  simp [World.connect]
+
+theorem connect_duplicate_refused (w : World) (id k : Nat) (chunks : List Bytes)
+    (h : (w.peers.lookup (.ctx k)).isSome = true) :
+    w.connect id (.ctx k) chunks = (w, [], some .duplicate) := by
+  simp [World.connect, h]
+
+/-- **connect succeeds exactly**: the server's stream starts with a server handshake naming the expected
+    peer; however the socket cuts it, the new connection is registered under that name, open, with the peer
+    identity set and an empty buffer (everything behind the handshake is still in the socket), the client
+    handshake was sent, and a differing version only produces the warning. -/
+theorem connect_succeeds (w : World) (id k : Nat) (chunks : List Bytes) (avail hp tail : Bytes) (ver : Nat)
+    (hfree : w.peers.lookup (.ctx k) = none)
+    (hsz : hp.length ≤ w.env.maxSize) (h64 : hp.length < 2 ^ 64)
+    (hs : Serves [] avail chunks) (heq : avail = frame hp ++ tail) (hcover : 9 + hp.length ≤ chunks.flatten.length)
+    (hd : w.env.decode hp = .handshake (some (.ctx k)) ver true) :
+    w.connect id (.ctx k) chunks =
+      ({ w with conns := setConn id { st := { alias := .ctx k, incoming := false, peer := some (.ctx k),
+                                              ver := some ver, pending := [] }, buf := [], closed := false } w.conns,
+                peers := w.peers ++ [(.ctx k, id)] },
+       .sentHs false :: (if some ver ≠ some w.env.version then [.versionWarning] else []), none) ∧
+    (w.connect id (.ctx k) chunks).1.peers.lookup (.ctx k) = some id := by
+  obtain ⟨hr, _⟩ := recvHs_exact w.env (Conn.fresh (.ctx k) false).st hp tail chunks avail hsz h64 hs heq hcover
+  have hproc := processMessage_handshake w.env (Conn.fresh (.ctx k) false).st hp (.ctx k) ver true rfl hd rfl
+  have hdone : hsDone w.env (Conn.fresh (.ctx k) false).st hp =
+      ⟨{ alias := .ctx k, incoming := false, peer := some (.ctx k), ver := some ver, pending := [] }, [], none⟩ := by
+    simp only [hsDone, hproc]; rfl
+  have hmain : w.connect id (.ctx k) chunks =
+      ({ w with conns := setConn id { st := { alias := .ctx k, incoming := false, peer := some (.ctx k),
+                                              ver := some ver, pending := [] }, buf := [], closed := false } w.conns,
+                peers := w.peers ++ [(.ctx k, id)] },
+       .sentHs false :: (if some ver ≠ some w.env.version then [.versionWarning] else []), none) := by
+    simp only [World.connect, hfree, Option.isSome_none, Bool.false_eq_true, ↓reduceIte, hr, hdone]
+    simp
+  refine ⟨hmain, ?_⟩
+  rw [hmain]
+  exact lookup_append_new _ _ _ hfree
+
+/-- the handshake names somebody else: refused, closed, nothing registered -/
+theorem connect_wrong_name_refused (w : World) (id k : Nat) (other : Name) (chunks : List Bytes)
+    (avail hp tail : Bytes) (ver : Nat)
+    (hfree : w.peers.lookup (.ctx k) = none) (hother : other ≠ .ctx k)
+    (hsz : hp.length ≤ w.env.maxSize) (h64 : hp.length < 2 ^ 64)
+    (hs : Serves [] avail chunks) (heq : avail = frame hp ++ tail) (hcover : 9 + hp.length ≤ chunks.flatten.length)
+    (hd : w.env.decode hp = .handshake (some other) ver true) :
+    (w.connect id (.ctx k) chunks).2.2 = some .wrongName ∧
+    (w.connect id (.ctx k) chunks).1.peers = w.peers ∧
+    ((w.connect id (.ctx k) chunks).1.conns.lookup id).map (·.closed) = some true := by
+  obtain ⟨hr, _⟩ := recvHs_exact w.env (Conn.fresh (.ctx k) false).st hp tail chunks avail hsz h64 hs heq hcover
+  have hproc := processMessage_handshake w.env (Conn.fresh (.ctx k) false).st hp other ver true rfl hd rfl
+  have hdone : hsDone w.env (Conn.fresh (.ctx k) false).st hp =
+      ⟨{ alias := .ctx k, incoming := false, peer := some other, ver := some ver, pending := [] }, [], none⟩ := by
+    simp only [hsDone, hproc]; rfl
+  have hne : (some other : Option Name) ≠ some (.ctx k) := by simpa using hother
+  simp only [World.connect, hfree, Option.isSome_none, Bool.false_eq_true, ↓reduceIte, hr, hdone, hne, ne_eq,
+    not_false_eq_true, closeConn_eq, lookup_setConn_eq, Option.map_some]
+  exact ⟨trivial, trivial, trivial⟩
+
+/-- **whatever goes wrong in `connect_to_peer`, nothing is registered**: the peer map is unchanged and the
+    connection object (if one was made) is closed -/
+theorem connect_failure_registers_nothing (w : World) (id : Nat) (name : Name) (chunks : List Bytes) (e : ConnectErr)
+    (h : (w.connect id name chunks).2.2 = some e) :
+    (w.connect id name chunks).1.peers = w.peers ∧
+    ((w.connect id name chunks).1 = w ∨
+     ((w.connect id name chunks).1.conns.lookup id).map (·.closed) = some true) := by
+  cases name with
+  | client n => simp [World.connect]
+  | ctx k =>
+    unfold World.connect at h ⊢
+    simp only [Bool.false_eq_true, ↓reduceIte] at h ⊢
+    by_cases hdup : (w.peers.lookup (.ctx k)).isSome = true
+    · simp [hdup]
+    · simp only [hdup, Bool.false_eq_true, ↓reduceIte] at h ⊢
+      generalize recvHs w.env (Conn.fresh (.ctx k) false).st [] chunks = r at h ⊢
+      obtain ⟨st, buf, err⟩ := r
+      cases err with
+      | some e' =>
+        refine ⟨by first | rfl | trivial, Or.inr ?_⟩
+        simp [closeConn_eq, lookup_setConn_eq]
+      | none =>
+        simp only [] at h ⊢
+        by_cases hn : st.peer ≠ some (.ctx k)
+        · simp only [hn, ne_eq, not_false_eq_true, ↓reduceIte]
+          refine ⟨by first | rfl | trivial, Or.inr ?_⟩
+          simp [closeConn_eq, lookup_setConn_eq]
+        · simp only [hn, ↓reduceIte] at h
+          simp at h
+
+/-- `add_incoming_connection`: the handshake cannot be sent → closed, nothing registered, no event -/
+theorem accept_failure_registers_nothing (w : World) (id : Nat) :
+    (w.accept id false).1.peers = w.peers ∧ (w.accept id false).2 = [] ∧
+    ((w.accept id false).1.conns.lookup id).map (·.closed) = some true := by
+  simp [World.accept, closeConn_eq, lookup_setConn_eq, Conn.fresh]
+
+/-- every `$client_<n>` alias in the peer map was handed out by the counter -/
+def AliasesBelow (w : World) : Prop := ∀ n id, (Name.client n, id) ∈ w.peers → n ≤ w.counter
+
+theorem lookup_none_of_not_mem (l : List (Name × Nat)) (a : Name) (h : ∀ id, (a, id) ∉ l) : l.lookup a = none := by
+  induction l with
+  | nil => rfl
+  | cons e rest ih =>
+    obtain ⟨k, v⟩ := e
+    have hk : (a == k) = false := by
+      simp; intro hak; exact h v (by rw [hak]; exact List.mem_cons_self)
+    simp only [List.lookup, hk]
+    exact ih (fun id hm => h id (List.mem_cons_of_mem _ hm))
+
+/-- **a new incoming connection gets a fresh alias**: it collides with no existing entry, it is registered
+    under it, and every other entry of the peer map is untouched -/
+theorem accept_alias_fresh (w : World) (id : Nat) (hinv : AliasesBelow w) :
+    w.peers.lookup (.client (w.counter + 1)) = none ∧
+    (w.accept id true).1.peers.lookup (.client (w.counter + 1)) = some id ∧
+    (∀ a, a ≠ .client (w.counter + 1) → (w.accept id true).1.peers.lookup a = w.peers.lookup a) ∧
+    AliasesBelow (w.accept id true).1 := by
+  have hnone : w.peers.lookup (.client (w.counter + 1)) = none :=
+    lookup_none_of_not_mem _ _ (fun id hm => by have := hinv _ _ hm; omega)
+  refine ⟨hnone, ?_, ?_, ?_⟩
+  · simp only [World.accept, ↓reduceIte]; exact lookup_append_new _ _ _ hnone
+  · intro a ha; simp only [World.accept, ↓reduceIte]; exact lookup_append_other _ _ _ _ ha
+  · intro n i hm
+    simp only [World.accept, ↓reduceIte, List.mem_append, List.mem_singleton, Prod.mk.injEq, Name.client.injEq] at hm ⊢
+    rcases hm with hm | ⟨rfl, _⟩
+    · have := hinv _ _ hm; omega
+    · omega
+
+theorem mem_erasePeer (a : Name) (l : List (Name × Nat)) (x : Name × Nat) (h : x ∈ erasePeer a l) : x ∈ l := by
+  induction l with
+  | nil => simp [erasePeer] at h
+  | cons e rest ih =>
+    simp only [erasePeer] at h
+    split at h
+    · exact List.mem_cons_of_mem _ (ih h)
+    · rcases List.mem_cons.mp h with rfl | h'
+      · exact List.mem_cons_self
+      · exact List.mem_cons_of_mem _ (ih h')
+
+/-- the alias invariant survives every operation of the socket manager -/
+theorem aliasesBelow_preserved (w : World) (hinv : AliasesBelow w) :
+    (∀ i d, AliasesBelow (w.recv i d).1) ∧ (∀ id ok, AliasesBelow (w.accept id ok).1) ∧
+    (∀ m p ok, AliasesBelow (w.send m p ok).1) ∧
+    (∀ name w' es, w.disconnect name = some (w', es) → AliasesBelow w') ∧
+    (∀ id name chunks, AliasesBelow (w.connect id name chunks).1) := by
+  refine ⟨?_, ?_, ?_, ?_, ?_⟩
+  · intro i d n id hm
+    unfold World.recv at hm ⊢
+    cases hc : w.conns.lookup i with
+    | none => simp only [hc] at hm ⊢; exact hinv _ _ hm
+    | some c =>
+      simp only [hc] at hm ⊢
+      split at hm
+      · exact hinv _ _ (mem_erasePeer _ _ _ hm)
+      · exact hinv _ _ hm
+  · intro id ok
+    cases ok with
+    | true => exact (accept_alias_fresh w id hinv).2.2.2
+    | false =>
+      intro n i hm
+      simp only [World.accept, Bool.false_eq_true, ↓reduceIte] at hm ⊢
+      have := hinv _ _ hm; omega
+  · intro m p ok n id hm
+    have hp : (w.send m p ok).1.peers = w.peers ∧ (w.send m p ok).1.counter = w.counter := by
+      unfold World.send
+      split
+      · exact ⟨rfl, rfl⟩
+      · split
+        · exact ⟨rfl, rfl⟩
+        · split
+          · exact ⟨rfl, rfl⟩
+          · split
+            · exact ⟨rfl, rfl⟩
+            · split <;> exact ⟨rfl, rfl⟩
+    rw [hp.1] at hm; rw [hp.2]; exact hinv _ _ hm
+  · intro name w' es h n id hm
+    unfold World.disconnect at h
+    cases hp : w.peers.lookup name with
+    | none => simp [hp] at h
+    | some i =>
+      cases hc : w.conns.lookup i with
+      | none => simp [hp, hc] at h
+      | some c =>
+        simp only [hp, hc, Option.some.injEq, Prod.mk.injEq] at h
+        obtain ⟨rfl, _⟩ := h
+        exact hinv _ _ (mem_erasePeer _ _ _ hm)
+  · intro id name chunks n i hm
+    cases name with
+    | client m => simp only [World.connect, ↓reduceIte] at hm ⊢; exact hinv _ _ hm
+    | ctx k =>
+      unfold World.connect at hm ⊢
+      simp only [Bool.false_eq_true, ↓reduceIte] at hm ⊢
+      by_cases hdup : (w.peers.lookup (.ctx k)).isSome = true
+      · simp only [hdup, ↓reduceIte] at hm ⊢; exact hinv _ _ hm
+      · simp only [hdup, Bool.false_eq_true, ↓reduceIte] at hm ⊢
+        generalize recvHs w.env (Conn.fresh (.ctx k) false).st [] chunks = r at hm ⊢
+        obtain ⟨st, buf, err⟩ := r
+        cases err with
+        | some e' => exact hinv _ _ hm
+        | none =>
+          simp only [] at hm ⊢
+          by_cases hn : st.peer ≠ some (.ctx k)
+          · simp only [hn, ne_eq, not_false_eq_true, ↓reduceIte] at hm ⊢; exact hinv _ _ hm
+          · simp only [hn, ↓reduceIte, List.mem_append, List.mem_singleton, Prod.mk.injEq, reduceCtorEq, false_and,
+              or_false] at hm ⊢
+            exact hinv _ _ hm
+
+
+/-! ## 9. Any interleaving of the connections' segments -/
+
+/-- **interleaving is irrelevant**: run any sequence of `_handle_read` calls on any connections in any order
+    (`World.run`).  For every connection `i`, its final state and the sequence of its events are those of the
+    run that contains only `i`'s own segments: what happens on the other connections — including violations,
+    closes and their error replies — and how the event loop interleaves them makes no difference. -/
+theorem interleaving_irrelevant (w : World) (i : Nat) (ops : List (Nat × Bytes)) :
+    (World.run w ops).1.conns.lookup i = (World.run w (ops.filter fun o => o.1 == i)).1.conns.lookup i ∧
+    (World.run w ops).2.filter (fun e => e.1 == i) = (World.run w (ops.filter fun o => o.1 == i)).2 :=
+  run_projection i ops w w rfl rfl
+
+/-- two merges of the same per-connection segment sequences are indistinguishable on every connection -/
+theorem any_two_merges_agree (w : World) (i : Nat) (ops1 ops2 : List (Nat × Bytes))
+    (h : ops1.filter (fun o => o.1 == i) = ops2.filter (fun o => o.1 == i)) :
+    (World.run w ops1).1.conns.lookup i = (World.run w ops2).1.conns.lookup i ∧
+    (World.run w ops1).2.filter (fun e => e.1 == i) = (World.run w ops2).2.filter (fun e => e.1 == i) := by
+  obtain ⟨a1, a2⟩ := interleaving_irrelevant w i ops1
+  obtain ⟨b1, b2⟩ := interleaving_irrelevant w i ops2
+  rw [a1, a2, b1, b2, h]
+  exact ⟨rfl, rfl⟩
+
+/-! ## 10. Non-vacuity: the hypotheses above are met by concrete, non-trivial states -/
 
 /-- example surroundings: context `n0`, limit 10 bytes, payload `[1]` = client handshake of `n5`,
     `[2]` = a request of `n5.3` to `n0.1`, `[3]` = a reply of `n5.3` to request 9 of `n0.4`, `[4]` = a message
@@ -493,7 +749,30 @@ example : ((exWorld.recv 0 [0x51]).1.conns.lookup 0).map (·.closed) = some true
     (exWorld.recv 0 [0x51]).1.conns.lookup 1 = exWorld.conns.lookup 1 := by
   decide
 
+/-- `handshake_reader_exact` / `connect_succeeds` apply: payload `[5]` is the server handshake of `n7`; the socket
+    hands out one byte, then the 8 length bytes, then the payload; one more byte (`0x50`) stays in the socket -/
+def exEnv2 : Env := { exEnv with decode := fun p => if p = [5] then .handshake (some (.ctx 7)) 3 true else exEnv.decode p }
+
+example : Serves [] ([0x50] ++ (((frame [5]).drop 1).take 8 ++ ([5] ++ [0x50])))
+    [[0x50], ((frame [5]).drop 1).take 8, [5]] :=
+  .cons [] [0x50] _ _ (by decide) (by decide)
+    (.cons [0x50] (((frame [5]).drop 1).take 8) _ _ (by decide) (by decide)
+      (.cons _ [5] [0x50] [] (by decide) (by decide) (.nil _ _)))
+
+example : (World.connect { exWorld with env := exEnv2 } 5 (.ctx 7) [[0x50], ((frame [5]).drop 1).take 8, [5]]).2.2 = none ∧
+    (World.connect { exWorld with env := exEnv2 } 5 (.ctx 7) [[0x50], ((frame [5]).drop 1).take 8, [5]]).1.peers.lookup (.ctx 7) = some 5 ∧
+    (World.connect { exWorld with env := exEnv2 } 5 (.ctx 7) [[0x50], ((frame [5]).drop 1).take 8, [5]]).2.1 = [.sentHs false, .versionWarning] ∧
+    (World.connect { exWorld with env := exEnv2 } 6 (.ctx 8) [[0x50], ((frame [5]).drop 1).take 8, [5]]).2.2 = some .wrongName := by
+  decide
+
+example : AliasesBelow exWorld := by
+  intro n id hm
+  simp only [exWorld, List.mem_cons, Prod.mk.injEq, Name.client.injEq, List.not_mem_nil, or_false] at hm
+  rcases hm with ⟨rfl, _⟩ | ⟨rfl, _⟩ <;> decide
+
+/-- an interleaving: garbage on connection 0 between the segments of connection 1 -/
+example : ((World.run exWorld [(1, frame [1]), (0, [0x51]), (1, frame [2])]).2.filter fun e => e.1 == 1) =
+    (World.run exWorld [(1, frame [1]), (1, frame [2])]).2 := by
+  decide
+
 end QmiModel.Frame
-
-
-
